@@ -137,36 +137,38 @@ def render (s : State) : String :=
   let b (x : Bool) : String := if x then "1" else "0"
   s!"chan={ch} present={b s.present} live={joinWith "," (liveKeys s)} settled={b (Settled s)}"
 
-def runLabels (cfg : Cfg) : State → List String → Nat → Except Nat State
-  | s, [], _ => .ok s
-  | s, l :: ls, i =>
+def liveStr (s : State) : String := joinWith "," (liveKeys s)
+
+def runLabels (cfg : Cfg) : State → List String → Nat → List String → Except Nat (State × List String)
+  | s, [], _, tr => .ok (s, tr.reverse)
+  | s, l :: ls, i, tr =>
     match hstep cfg s l with
     | none => .error i
-    | some s' => runLabels cfg s' ls (i + 1)
+    | some s' => runLabels cfg s' ls (i + 1) (liveStr s' :: tr)
 
 def candidates : List String := ["S", "S", "S", "Sf", "Sl", "U", "U", "C", "T", "T", "T"]
 
-def genLabels (cfg : Cfg) : State → List Nat → List String → State × List String
-  | s, [], acc => (s, acc)
-  | s, r :: rs, acc =>
+def genLabels (cfg : Cfg) : State → List Nat → List String → List String → State × List String × List String
+  | s, [], acc, tr => (s, acc, tr)
+  | s, r :: rs, acc, tr =>
     let en := candidates.filterMap fun l => (hstep cfg s l).map fun s' => (l, s')
     match en[r % (max en.length 1)]? with
-    | none => (s, acc)
-    | some (l, s') => genLabels cfg s' rs (acc ++ [l])
+    | none => (s, acc, tr)
+    | some (l, s') => genLabels cfg s' rs (acc ++ [l]) (tr ++ [liveStr s'])
 
 /-- run every live actor to its end (no new actors) -/
-def finish (cfg : Cfg) : Nat → State → List String → State × List String
-  | 0, s, acc => (s, acc)
-  | fuel + 1, s, acc =>
-    if Settled s then (s, acc)
+def finish (cfg : Cfg) : Nat → State → List String → List String → State × List String × List String
+  | 0, s, acc, tr => (s, acc, tr)
+  | fuel + 1, s, acc, tr =>
+    if Settled s then (s, acc, tr)
     else
       let tryL (l : String) (live : Bool) : Option (String × State) :=
         if live then (hstep cfg s l).map fun s' => (l, s') else none
       let cLive := match s.C with | some .done => false | some _ => true | none => false
       match (tryL "S" s.S.isSome).orElse fun _ => (tryL "T" s.T.isSome).orElse fun _ =>
             (tryL "U" s.U.isSome).orElse fun _ => tryL "C" cLive with
-      | some (l, s') => finish cfg fuel s' (acc ++ [l])
-      | none => (s, acc)
+      | some (l, s') => finish cfg fuel s' (acc ++ [l]) (tr ++ [liveStr s'])
+      | none => (s, acc, tr)
 
 def protoStep (ws : List String) : String :=
   let headW := ws.takeWhile (· ≠ "|")
@@ -174,14 +176,14 @@ def protoStep (ws : List String) : String :=
   match headW with
   | "prun" :: cfgW =>
     let cfg : Cfg := { quietResub := kv cfgW "quiet" == some "1" }
-    match runLabels cfg {} tailW 0 with
-    | .ok s => render s
+    match runLabels cfg {} tailW 0 [] with
+    | .ok (s, tr) => s!"{render s} trail={joinWith "/" tr}"
     | .error i => s!"disabled@{i}"
   | "pgen" :: cfgW =>
     let cfg : Cfg := { quietResub := kv cfgW "quiet" == some "1" }
-    let (s1, l1) := genLabels cfg {} (tailW.filterMap String.toNat?) []
-    let (s2, l2) := finish cfg 40 s1 l1
-    s!"labels={joinWith "," l2} {render s2}"
+    let (s1, l1, t1) := genLabels cfg {} (tailW.filterMap String.toNat?) [] []
+    let (s2, l2, t2) := finish cfg 40 s1 l1 t1
+    s!"labels={joinWith "," l2} {render s2} trail={joinWith "/" t2}"
   | _ => "bad-op"
 
 end PP
